@@ -4,6 +4,6 @@ EXPLANATION = ("Bounded: ltrim/rtrim/trim, delete_sites, keep_intervals/delete_i
                "oracles (every column other than the shifted coordinates passes through unchanged incl. metadata; half-open "
                "retained regions; parents remapped) on seeded small collections with boundary arguments.")
 C_FUNCS = []
-BOUNDED = [{"name": "edits_vs_rows", "module": "standins.c11_edits", "timeout": 900}]
+BOUNDED = [{"name": "edits_vs_rows", "module": "standins.c11_edits", "timeout": 900, "asan": "thorough"}]
 UNVERIFIED = ["tsk_table_collection_delete_older, tsk_treeseq_split_edges, extend_haplotypes", "python/tskit/tables.py editing methods (bounded only)"]
 ASSUMPTIONS = []
